@@ -58,7 +58,9 @@ class Trie:
 class Model:
   """Unrolled transition system for a list of Tries."""
 
-  def __init__(self, tries, init_present=None):
+  K = 8   # capacity of a modelled list (scope stacks are far shallower)
+
+  def __init__(self, tries, init_present=None, list_init=None):
     self.tries = tries
     self.N = len(tries)
     self.T = sum(t.depth() for t in tries)
@@ -66,6 +68,8 @@ class Model:
     self.objs = {}        # dict object name -> index
     self.locks = {}
     self.effects = {}
+    self.lists = {}
+    self.list_init = list_init or {}
     self.tokens = {None: 0}
     for t in tries:
       for node in t.nodes:
@@ -87,13 +91,29 @@ class Model:
         for obs, w in node['variants'].items():
           self._discover(obj, op, key, obs, w)
     self.init_present = init_present or {}
+    for init in self.list_init.values():
+      for tk in init:
+        self.tokens.setdefault(abs_tok(tk), len(self.tokens))
     self.solver_s = 0.0
     self.queries = 0
     self._build()
 
+  LIST_OPS = ('push', 'pop_top', 'read_top', 'read_all', 'read_at')
+
   def _discover(self, obj, op, key, obs, w):
     if op == 'effect':
       self.effects.setdefault((obj, key), len(self.effects))
+      return
+    if op in self.LIST_OPS:
+      self.lists.setdefault(obj, len(self.lists))
+      if isinstance(w, dict):
+        for tokv in w.values():
+          self.tokens.setdefault(abs_tok(tokv), len(self.tokens))
+      if op == 'read_top' or op == 'read_at':
+        self.tokens.setdefault(abs_tok(obs), len(self.tokens))
+      if op == 'read_all':
+        for tk in obs:
+          self.tokens.setdefault(abs_tok(tk), len(self.tokens))
       return
     self.objs.setdefault(obj, len(self.objs))
     if op in ('contains', 'getitem', 'get', 'setitem', 'setdefault', 'pop'):
@@ -126,6 +146,9 @@ class Model:
     # per (thread, dict object): version snapshot taken by the thread's live iterator
     self.snap = [[[I('snap_%d_%d_%d' % (i, o, t)) for t in range(T + 1)] for o in range(len(self.objs))]
                  for i in range(N)]
+    self.llen = [[I('llen_%d_%d' % (o, t)) for t in range(T + 1)] for o in range(len(self.lists))]
+    self.lcell = [[[I('lcell_%d_%d_%d' % (o, k, t)) for t in range(T + 1)] for k in range(self.K)]
+                  for o in range(len(self.lists))]
     self.bad = [B('bad_%d' % t) for t in range(T + 1)]
     self.div = [B('div_%d' % t) for t in range(T + 1)]
     self.divinfo = []     # (t, thread, node, condition) for decoding
@@ -144,6 +167,11 @@ class Model:
       cons.append(self.lock[l][0] == IV(1023))
     for e in range(len(self.effects)):
       cons.append(self.eff[e][0] == 0)
+    for name, o in self.lists.items():
+      init = self.list_init.get(name, ())
+      cons.append(self.llen[o][0] == IV(len(init)))
+      for k in range(self.K):
+        cons.append(self.lcell[o][k][0] == IV(self.tokens[abs_tok(init[k])] if k < len(init) else 0))
     cons.append(z3.Not(self.bad[0]))
     cons.append(z3.Not(self.div[0]))
 
@@ -162,6 +190,8 @@ class Model:
       upd_eff = {e: [] for e in range(len(self.effects))}
       upd_snap = {(i, o): [] for i in range(N) for o in range(len(self.objs))}
       upd_node = {i: [] for i in range(N)}
+      upd_llen = {o: [] for o in range(len(self.lists))}
+      upd_lcell = {(o, k): [] for o in range(len(self.lists)) for k in range(self.K)}
       bad_now, div_now = [], []
       enabled_any = []
       for i in range(N):
@@ -193,6 +223,25 @@ class Model:
             bad_now.append(z3.And(g, changed))
             for obs, child in nd['children'].items():
               conds.append((z3.BoolVal(True), obs, child))
+          elif op in self.LIST_OPS:
+            o = self.lists[obj]
+            ln = self.llen[o][t]
+            top = IV(0)
+            for k in range(self.K):
+              top = z3.If(ln == IV(k + 1), self.lcell[o][k][t], top)
+            if op in ('read_top', 'pop_top'):
+              bad_now.append(z3.And(g, ln == IV(0)))            # IndexError in this thread
+            if op == 'push':
+              bad_now.append(z3.And(g, ln == IV(self.K)))       # model capacity exceeded
+            for obs, child in nd['children'].items():
+              if op == 'read_top':
+                conds.append((top == IV(self.tokens[abs_tok(obs)]), obs, child))
+              elif op == 'read_all':
+                conds.append((z3.And([ln == IV(len(obs))] +
+                                     [self.lcell[o][k][t] == IV(self.tokens[abs_tok(tk)])
+                                      for k, tk in enumerate(obs)]), obs, child))
+              else:
+                conds.append((z3.BoolVal(True), obs, child))
           elif op == 'acquire':
             l = self.locks[obj]
             enabled = self.lock[l][t] == IV(1023)
@@ -265,6 +314,19 @@ class Model:
               if errs:
                 bad_now.append(z3.And(gc_, z3.Or(errs)))
               continue
+            if op == 'push':
+              o = self.lists[obj]
+              tv = IV(self.tokens[abs_tok(list(w.values())[0])])
+              for k in range(self.K):
+                upd_lcell[(o, k)].append((z3.And(gc_, self.llen[o][t] == IV(k)), tv))
+              upd_llen[o].append((gc_, self.llen[o][t] + 1))
+              continue
+            if op == 'pop_top':
+              o = self.lists[obj]
+              upd_llen[o].append((gc_, self.llen[o][t] - 1))
+              continue
+            if op in self.LIST_OPS:
+              continue
             if op == 'acquire':
               upd_lock[self.locks[obj]].append((gc_, IV(i)))
             elif op == 'release':
@@ -314,6 +376,10 @@ class Model:
         cons.append(self.lock[l][t + 1] == fold(upd_lock[l], self.lock[l][t]))
       for e in range(len(self.effects)):
         cons.append(self.eff[e][t + 1] == fold(upd_eff[e], self.eff[e][t]))
+      for o in range(len(self.lists)):
+        cons.append(self.llen[o][t + 1] == fold(upd_llen[o], self.llen[o][t]))
+        for k in range(self.K):
+          cons.append(self.lcell[o][k][t + 1] == fold(upd_lcell[(o, k)], self.lcell[o][k][t]))
       for i in range(N):
         cons.append(self.node[i][t + 1] == fold(upd_node[i], self.node[i][t]))
       cons.append(self.bad[t + 1] == z3.Or(self.bad[t], z3.Or(bad_now + [deadlock])))
